@@ -78,6 +78,78 @@ def splitLines (lt : Bytes) : Nat → Bytes → Bytes → List Bytes
     if lt.isPrefixOf (c :: cs) then (cur.reverse ++ lt) :: splitLines lt (lt.length - 1) cs []
     else splitLines lt 0 cs (c :: cur)
 
+/-! ### The scanner as it really runs: a split function called on a growing buffer
+
+`bufio.Scanner` never sees the whole file. It reads a chunk (4096 bytes at first, whatever the
+reader delivers), calls the split function on *the bytes buffered so far* with `atEOF = false`, and
+when the function answers "need more" (`advance = 0`, `token = nil`) it reads the next chunk, appends
+it and calls the function again **on the same pending bytes plus the new ones**. `splitLines` above is
+the whole-file view; `scan` below is the streaming view, for an arbitrary list of chunks. -/
+
+/-- Go: `bytes.Index(data, p)` for `p ≠ []`. -/
+def index (p : Bytes) : Bytes → Option Nat
+  | [] => none
+  | c :: cs => if p.isPrefixOf (c :: cs) then some 0 else (index p cs).map (· + 1)
+
+/-- Go: `LoadData.SplitLines(data, atEOF)` → `(advance, token)`; `none` is the `nil` token
+("read more"). The function has no state: it searches the pending bytes from byte 0 on every call. -/
+def splitFn (lt data : Bytes) (atEOF : Bool) : Nat × Option Bytes :=
+  if atEOF && data.isEmpty then (0, none) else
+  match index lt data with
+  | some i => (i + lt.length, some (data.take (i + lt.length)))
+  | none => if atEOF then (data.length, some data) else (0, none)
+
+/-- A split function that remembers how many leading bytes of the pending line it has already
+searched (`searched`, reset when a token is returned) and resumes there. `back` is how far the
+resume point is moved back from the end of the buffered bytes when no terminator was found:
+`back = lt.length - 1` is the correct resume point (a terminator may have begun in the last
+`lt.length - 1` bytes), `back = 0` is the off-by-(L-1) variant that loses a terminator straddling
+two reads. Returns the new `searched` as third component. -/
+def splitFnResume (back : Nat) (lt data : Bytes) (atEOF : Bool) (searched : Nat) : Nat × Option Bytes × Nat :=
+  if atEOF && data.isEmpty then (0, none, searched) else
+  match index lt (data.drop searched) with
+  | some i => (searched + i + lt.length, some (data.take (searched + i + lt.length)), 0)
+  | none => if atEOF then (data.length, some data, 0) else (0, none, data.length - back)
+
+/-- Go: the loop of `bufio.Scanner.Scan` while it does not have to read: call the split function on
+the buffered bytes; a token is emitted and `advance` bytes are dropped; `(0, nil)` leaves the loop
+(read more, or stop at EOF). `fuel` bounds the number of tokens (every token advances). Returns the
+tokens and the bytes still pending. -/
+def drain (lt : Bytes) (atEOF : Bool) : Nat → Bytes → List Bytes × Bytes
+  | 0, buf => ([], buf)
+  | fuel + 1, buf =>
+    match splitFn lt buf atEOF with
+    | (adv, some tok) =>
+      if adv = 0 then ([], buf) else
+      let r := drain lt atEOF fuel (buf.drop adv)
+      (tok :: r.1, r.2)
+    | (_, none) => ([], buf)
+
+/-- Go: `bufio.Scanner` over a reader that delivers `chunks` one per `Read` and then EOF;
+`buf` = bytes pending from earlier reads. -/
+def scan (lt : Bytes) : Bytes → List Bytes → List Bytes
+  | buf, [] => (drain lt true (buf.length + 1) buf).1
+  | buf, c :: cs =>
+    let r := drain lt false (buf.length + c.length + 1) (buf ++ c)
+    r.1 ++ scan lt r.2 cs
+
+/-- The same scanner loop driven by the resuming split function. -/
+def drainResume (back : Nat) (lt : Bytes) (atEOF : Bool) : Nat → Bytes → Nat → List Bytes × Bytes × Nat
+  | 0, buf, s => ([], buf, s)
+  | fuel + 1, buf, s =>
+    match splitFnResume back lt buf atEOF s with
+    | (adv, some tok, s') =>
+      if adv = 0 then ([], buf, s') else
+      let r := drainResume back lt atEOF fuel (buf.drop adv) s'
+      (tok :: r.1, r.2)
+    | (_, none, s') => ([], buf, s')
+
+def scanResume (back : Nat) (lt : Bytes) : Bytes → Nat → List Bytes → List Bytes
+  | buf, s, [] => (drainResume back lt true (buf.length + 1) buf s).1
+  | buf, s, c :: cs =>
+    let r := drainResume back lt false (buf.length + c.length + 1) (buf ++ c) s
+    r.1 ++ scanResume back lt r.2.1 r.2.2 cs
+
 /-- Go: `strings.Index(line, p)` followed by `line[idx+len(p):]`; `none` when not found. -/
 def dropToAfter (p : Bytes) : Bytes → Option Bytes
   | [] => none
@@ -167,6 +239,11 @@ def readLines (o : Opts) (ncols : Nat) : List Bytes → List (List (Option Bytes
 /-- The table (all columns of a string type, `ncols` of them) after `LOAD DATA INFILE`. -/
 def readFile (o : Opts) (ncols : Nat) (data : Bytes) : List (List (Option Bytes)) :=
   readLines o ncols (splitLines o.lt 0 data [])
+
+/-- The table after `LOAD DATA` when the reader delivers the file as `chunks` (any chunking: the
+4096-byte refills of `bufio.Scanner` over an `os.File`, the packets of `LOAD DATA LOCAL`). -/
+def readFileChunked (o : Opts) (ncols : Nat) (chunks : List Bytes) : List (List (Option Bytes)) :=
+  readLines o ncols (scan o.lt [] chunks)
 
 /-! ### Spec -/
 
